@@ -494,6 +494,13 @@ func init() {
 		return []Value{App("str.hasprefix", BoolSort, s, p)}
 	}
 	models["(github.com/cometbft/cometbft/libs/bytes.HexBytes).Bytes"] = func(e *Exec, a []Value) []Value { return []Value{a[0]} }
+	models["strings.TrimSpace"] = func(e *Exec, a []Value) []Value {
+		s := asTerm(e, a[0])
+		if s.IsStrLit() {
+			return []Value{StrLit(strings.TrimSpace(s.Str))}
+		}
+		return []Value{App("str.trim", StrSort, s)}
+	}
 	models["time.Now"] = func(e *Exec, a []Value) []Value {
 		return []Value{e.symTimeOracle("oracle.time.Now")}
 	}
